@@ -267,6 +267,8 @@ def gen_header(rng, tier):
         rng.shuffle(lines)
         if rng.random() < 0.2:
             lines = lines + [list(rng.choice(lines))] if lines else lines  # a declaration given twice
+        if rng.random() < 0.08:
+            lines = []  # a file without any header line at all
         yield {"reader": reader, "lines": lines}
 
 
@@ -412,7 +414,7 @@ CHECK = Check(
             setup=setup,
             teardown=teardown,
             nontrivial=lambda c, o: C.jdump(c) if isinstance(o, dict) and o.get("missing") else None,
-            rule="seeded random headers for seven reader configurations (incl. Haplotype and Repeat classes that both require 'beta', as simphenotype's do): per line type and name of a pool every declaration present or absent (complete headers, exactly one required declaration dropped, random subsets, a required name declared only for the line types that do not require it), plus order lines, metadata, duplicated declarations and lines that merely look like declarations; check_header(softly=True) warnings, check_header(softly=False) ValueError and the warnings of read() are parsed for the '#t name' pairs and compared with the Lean bookkeeping and with required-minus-declared computed from the generated content",
+            rule="seeded random headers for seven reader configurations (incl. Haplotype and Repeat classes that both require 'beta', as simphenotype's do): per line type and name of a pool every declaration present or absent (complete headers, no header line at all, exactly one required declaration dropped, random subsets, a required name declared only for the line types that do not require it), plus order lines, metadata, duplicated declarations and lines that merely look like declarations; check_header(softly=True) warnings, check_header(softly=False) ValueError and the warnings of read() are parsed for the '#t name' pairs and compared with the Lean bookkeeping and with required-minus-declared computed from the generated content",
         ),
         Section(
             name="version_strings",
